@@ -14,13 +14,18 @@ from __future__ import annotations
 import random
 
 ALIASES = {"→": ["->"], "⊕": ["+"], "⧺": ["~"], "⇌": ["vs", "<->"], "∨": ["|"], "∧": ["&"], "§": ["#"]}
-KEYS = ["K", "KEY_2", "a.b", "x-y", "Name", "STATUS", "RISKS", "TESTS", "Ünï", "k9", "_p", "ID"]
+KEYS = ["K", "KEY_2", "a.b", "x-y", "Name", "STATUS", "RISKS", "TESTS", "Ünï", "k9", "_p", "ID", "PATTERN", "REGEX"]
+ALWAYS_QUOTE = ("PATTERN", "REGEX")
 WORDS = ["alpha", "Beta", "g_1", "x.y", "done", "ACTIVE", "pend-ing", "truex", "nullable", "vsx", "A1"]
 PLAIN_QUOTED = ["two words", "a,b", "x:y", "has \"q\"", "back\\slash", "tab\there", "nl\nline", "", "1abc", "true", "null", "vs",
-                "-dash", "é accent", "a→b c", "[br]", "# hash", "// not comment", "50%", "a=b", "(p)", "semi;colon", "$", "§ref x"]
+                "-dash", "é accent", "a→b c", "[br]", "# hash", "// not comment", "50%", "a=b", "(p)", "semi;colon", "$", "§ref x",
+                "//server/share", "//cdn.example.com/lib.js", "/usr/bin", "./src", "docs/readme.md", "a//b", "http://x/y", "1.0rc1", "2.5e-05x",
+                "a→true", "X@null", "Speed→vs", "A⊕false.x", "true.", "null-x", "vs.a", "NAME{q}", "x<y>", "a<>", "N<a,b>", "\\n", "end\\"]
 COMMENTS = ["note", "TODO: x", "a // b", "ünï", "x::y", "-> arrow", "\"q\""]
 ZONE_LINES = ["plain", "  indented", "\ttab", "A::1", "===END===", "---", "``", "a -> b", "é́ nfd", "back\\slash \\n", "\"quoted\"",
-              "x & y | z # w", "trailing  ", "", "// c", "[1,2", "true"]
+              "x & y | z # w", "trailing  ", "", "// c", "[1,2", "true", "see \"x\" then \\textbf{important}", "// url http://h/p PKG{latest}",
+              "NAME{q} and A{b}", "K::\"s\" // c X{y}", "Ω{x} ́combining"]
+SHORT_FENCE_TAILS = ["", "", "cafe\u0301 title", "py", "  ", "é́"]
 TAGS = [None, "python", "json", "oct"]
 
 
@@ -108,8 +113,9 @@ def gen_zone(rng):
     if lines == [""]:
         lines = ["x", ""]
     flen = rng.choice([3, 3, 4, 5, 6])
-    if rng.random() < 0.3 and flen > 3:
-        lines.append("`" * (flen - 1))
+    if rng.random() < 0.35 and flen > 3:
+        # a shorter backtick run (with or without trailing text) is zone CONTENT and must stay verbatim
+        lines.insert(rng.randint(0, len(lines)), "`" * rng.randint(3, flen - 1) + rng.choice(SHORT_FENCE_TAILS))
     return {"t": "zone", "lines": lines, "tag": rng.choice(TAGS), "fence": flen}
 
 
@@ -152,10 +158,12 @@ def gen_nodes(rng, depth, n, in_section=False, zones=True):
             trail = rng.choice(COMMENTS) if (rng.random() < 0.15 and v["t"] not in ("zone", "list")) else None
             nodes.append({"t": "assign", "lead": lead, "k": key, "v": v, "trail": trail})
         elif r < 0.9:
-            ch = gen_nodes(rng, depth + 1, rng.choice([1, 1, 2, 3]), zones=zones)
-            if zones and rng.random() < 0.12:
-                ch.insert(rng.randint(0, len(ch)), {"t": "bzone", "lead": gen_comments(rng, 0.2), "v": gen_zone(rng)})
-            orphan = gen_comments(rng, 0.1)
+            ch = gen_nodes(rng, depth + 1, rng.choice([0, 1, 1, 2, 3]), zones=zones)
+            if zones and ch and rng.random() < 0.12:
+                pos = rng.randint(0, len(ch))
+                if not (pos > 0 and ch[pos - 1]["t"] == "block" and not ch[pos - 1]["ch"]):
+                    ch.insert(pos, {"t": "bzone", "lead": gen_comments(rng, 0.2), "v": gen_zone(rng)})
+            orphan = gen_comments(rng, 0.1) if ch else []
             nodes.append({"t": "block", "lead": lead, "k": rng.choice(KEYS), "target": rng.choice([None, None, "T", "SELF"]),
                           "ch": ch, "orphan": orphan})
         else:
@@ -302,7 +310,8 @@ def r_scalar(w: Writer, sp: Spelling, v, in_list=False):
             w.w('"""' + v["v"] + '"""')
     elif t == "qstr":
         s = v["v"]
-        if sp.flip("quotes") and "\\" not in s and '"""' not in s and not s.endswith('"') and "\n" not in s and "\t" not in s:
+        if sp.flip("quotes") and "\\" not in s and '"""' not in s and not s.endswith('"') and "\t" not in s:
+            # a triple-quoted string may span lines (raw newline = newline in the value)
             w.receipts.append(["normalization", '"""', {"s": s}, w.line, w.col])
             w.w('"""' + s + '"""')
         else:
@@ -353,7 +362,10 @@ def r_value(w: Writer, sp: Spelling, v, indent: int, in_list=False):
                 w.w(_sp(sp))
             if it["t"] == "pair":
                 w.w(it["k"] + _sp(sp) + "::" + _sp(sp))
-                r_scalar(w, sp, it["v"], in_list=True)
+                if it["k"] in ALWAYS_QUOTE and isinstance(value_json(it["v"]), dict) and "s" in value_json(it["v"]):
+                    w.w('"' + _escape(value_json(it["v"])["s"]) + '"')
+                else:
+                    r_scalar(w, sp, it["v"], in_list=True)
             elif it["t"] in ("list", "expr"):
                 r_value(w, sp, it, indent + 2, in_list=True)
             elif it["t"] == "zone":
@@ -409,7 +421,12 @@ def r_nodes(w: Writer, sp: Spelling, nodes, indent: int):
                 r_zone(w, n["v"], indent)
             else:
                 w.w(_sp(sp))
-                r_value(w, sp, n["v"], indent)
+                v = n["v"]
+                if n["k"] in ALWAYS_QUOTE and isinstance(value_json(v), dict) and "s" in value_json(v):
+                    # PATTERN / REGEX values are string literals: canonical (and here every) spelling is quoted
+                    w.w('"' + _escape(value_json(v)["s"]) + '"')
+                else:
+                    r_value(w, sp, v, indent)
                 if n["trail"]:
                     w.w(sp.choice("space", [" ", "  ", "   "]) + "//" + sp.choice("space", [" ", ""]) + n["trail"])
             _eol(w, sp)
@@ -467,8 +484,10 @@ def render(d: dict, sp: Spelling):
     if d["sep"]:
         w.w("---")
         _eol(w, sp)
-    r_nodes(w, sp, d["nodes"], 0)
-    r_comments(w, sp, d["trailing"], 0)
+    # the whole body may be indented under the envelope — but not below a META block, whose children it would join
+    base = 0 if d["meta"] else sp.choice("body_indent", [0, 0, 2, 1, 3])
+    r_nodes(w, sp, d["nodes"], base)
+    r_comments(w, sp, d["trailing"], base)
     if not sp.flip("end"):
         w.w("===END===")
         w.nl()
